@@ -274,6 +274,69 @@ def compare(rep, case, a, b, what):
     return None
 
 
+def jump_descs(tier, r):
+    """programs that JUMP / JUMPI (literal-true, literal-false and symbolic condition) to every
+    offset of a body with JUMPDEST bytes at boundaries and inside PUSH data: executed by the
+    real SEVM and by the reference interpreter (input-wise comparison of harness/l2tie.py)"""
+    from harness import asm
+
+    descs = []
+    nbodies = 3 if tier == "quick" else 16
+    for b in range(nbodies):
+        items = []
+        for _ in range(r.randrange(3, 6)):
+            k = r.random()
+            if k < 0.35:
+                items += [("label", f"J{len(items)}"), ("push", r.randrange(1, 200)), "PUSH0", "MSTORE"]
+            elif k < 0.75:
+                n = r.choice([1, 2, 3, 32])
+                imm = bytes(r.choice([0x5B, 0x5B, r.randrange(256)]) for _ in range(n))
+                items += [("raw", bytes([0x5F + n]) + imm), "POP"]
+            else:
+                items += [("push", 0x5B), "POP"]
+        items += [("push", 32), "PUSH0", "RETURN"]
+        body = asm.assemble(items)
+        if r.random() < 0.5:
+            body += bytes([r.choice([0x60, 0x61, 0x7F])]) + bytes([0x5B])   # truncated trailing PUSH
+        for kind in ("jump", "jumpi_true", "jumpi_sym", "jumpi_false"):
+            head_len = {"jump": 4, "jumpi_true": 6, "jumpi_sym": 7, "jumpi_false": 5}[kind] + 1
+            for t in range(head_len - 1, head_len + len(body) + 1):
+                if kind == "jump":
+                    head = [("pushn", 2, t), "JUMP"]
+                elif kind == "jumpi_true":
+                    head = [("push", 1), ("pushn", 2, t), "JUMPI"]
+                elif kind == "jumpi_false":
+                    head = ["PUSH0", ("pushn", 2, t), "JUMPI"]
+                else:
+                    head = [("push", 4), "CALLDATALOAD", ("pushn", 2, t), "JUMPI"]
+                code = asm.assemble(head + ["STOP"]) + body
+                descs.append({"profile": "jump-" + kind, "code": code.hex(), "callees": {}, "options": {}, "static": False, "nargs": 2})
+    return descs
+
+
+def jump_leg(rep, tier, r):
+    from harness import l2common
+
+    descs = jump_descs(tier, r)
+    out = l2common.run_corpus(descs, common.seed() % 100000, n_random=2, timeout=120)
+    n = 0
+    for d, status, res in out:
+        rep.count("jump_leg", d["profile"])
+        if status != "ok":
+            rep.count("jump_leg_status", status)
+            continue
+        n += 1
+        rep.case({"jump_program": d["code"], "kind": d["profile"]}, nontrivial=True)
+        for f in (res["c01"] + res["c02"])[:2]:
+            # a symbolic JUMPI to an invalid destination is the recorded finding C01-F21, not C19's subject
+            if d["profile"] == "jump-jumpi_sym" and str(f.get("halmos", "")).startswith("halt:InvalidJumpDest"):
+                rep.count("jump_leg", "known-F21")
+                continue
+            rep.fail("failing-input", f"execution of a jump disagrees with the EVM on program {d['code']}: {str(f)[:300]}",
+                     case={"scenario": d, "failure": f}, sig={"observable": "jump-execution", "kind": d["profile"]})
+    rep.coverage["jump_programs_executed"] = n
+
+
 def run(rep, tier):
     b = common.build_property(PID, TRANSLATORS)
     built = common.standard_obligations(rep, PID, b)
@@ -319,6 +382,10 @@ def run(rep, tier):
                 nbad += 1
                 if nbad <= 10:
                     rep.fail("broken-tie", f"model and implementation disagree (spec agrees with implementation) on {c}: {d}", case={"segments": c, **d})
+    try:
+        jump_leg(rep, tier, r)
+    except RuntimeError as e:
+        rep.fail("broken-tie", f"reference interpreter driver does not build: {str(e)[-300:]}", case={})
     rep.coverage["traces_validated_against_impl"] = len(cases) if model_res is not None else 0
     rep.coverage["exhaustive"] = True
     rep.coverage["exhaustive_note"] = f"all byte strings of length <= {4 if tier == 'quick' else 6} over the alphabet {[hex(a) for a in ALPHABET]} are included"
